@@ -39,6 +39,7 @@ type c09Plan struct {
 	TooMany    int         `json:"too_many_threshold,omitempty"` // regulation thresholds (0 = pool default)
 	TooFew     int         `json:"too_few_threshold,omitempty"`
 	Pollers    int         `json:"state_pollers,omitempty"` // tasks calling State()/Status()/WorkerCount() while everything else runs
+	Clear      int         `json:"clear_prelude,omitempty"` // >0: before everything else that many tasks are queued, the queue is partly consumed, cleared by its owner (Clear()), and reused
 	Exits      int         `json:"exits,omitempty"`         // number of ops with Exit
 	NoPair     bool        `json:"no_pair,omitempty"`
 }
@@ -131,6 +132,9 @@ func c09Gen(r *simrt.RNG, tier string) interface{} {
 	}
 	if r.Bool(0.2) {
 		p.Pollers = 1 + r.Intn(2)
+	}
+	if !p.LIFO && r.Bool(0.06) {
+		p.Clear = 1 + r.Intn(5)
 	}
 	if len(p.Resizes) == 0 && p.Workers >= 2 && r.Bool(0.12) {
 		// some tasks end the worker that runs them; at least one worker (two, if a pair of
@@ -243,6 +247,16 @@ func c09Shrink(pi interface{}) []interface{} {
 			}
 		}
 	}
+	if p.Clear > 0 {
+		q := clone()
+		q.Clear = 0
+		out = append(out, q)
+		if p.Clear > 1 {
+			q = clone()
+			q.Clear = 1
+			out = append(out, q)
+		}
+	}
 	if p.LIFO {
 		q := clone()
 		q.LIFO = false
@@ -282,6 +296,7 @@ type c09State struct {
 	running  int
 	lastSize int
 	exited   int // workers ended by their task
+	cleared  map[int]bool
 }
 
 type c09Task struct {
@@ -371,9 +386,13 @@ func (st *c09State) submit(op c09Op) {
 
 func c09Run(pi interface{}) {
 	p := pi.(*c09Plan)
-	st := &c09State{}
+	st := &c09State{cleared: map[int]bool{}}
+	var ownQueue *pool.DefaultTaskQueue
 	if p.LIFO {
 		st.tp = pool.NewThreadPoolWithQueue(&lifoQueue{})
+	} else if p.Clear > 0 {
+		ownQueue = &pool.DefaultTaskQueue{}
+		st.tp = pool.NewThreadPoolWithQueue(ownQueue)
 	} else {
 		st.tp = pool.NewThreadPool()
 	}
@@ -386,7 +405,36 @@ func c09Run(pi interface{}) {
 		}
 		tp.TooFewThreshold = p.TooFew
 		tp.TooManyCallback = func() { tooMany++; simrt.Count("regulation_too_many_callback") }
+		// (the callbacks do not call back into the pool: on the pinned tree they run with pool
+		// locks held and e.g. WorkerCount() from TooFewCallback can close a three-lock cycle
+		// with JoinAll and AddTask - DESIGN.md 9, observations)
 		tp.TooFewCallback = func() { tooFew++; simrt.Count("regulation_too_few_callback") }
+	}
+	if ownQueue != nil {
+		// the owner of the queue empties it while it is partly consumed: tasks queued before
+		// that are gone (expected), tasks added afterwards must run like any other
+		gate := &c09Dep{}
+		gate.cond = simsync.NewCond(&gate.mu)
+		tp.SetWorkerCount(1, false)
+		st.submit(c09Op{Kind: "add"})
+		id := st.nextID
+		st.nextID++
+		st.runs, st.done, st.handled, st.fail = append(st.runs, 0), append(st.done, false), append(st.handled, 0), append(st.fail, false)
+		tp.AddTask(&c09Task{st: st, id: id, op: c09Op{Kind: "add"}, waitFor: gate})
+		first := st.nextID
+		for k := 0; k < p.Clear; k++ {
+			st.submit(c09Op{Kind: "add"})
+		}
+		simrt.WaitQuiescent() // the first task is done, the second one waits for the gate, the rest is queued
+		ownQueue.Clear()
+		simrt.Count("fault_queue_cleared_by_owner")
+		for k := first; k < st.nextID; k++ {
+			st.cleared[k] = true
+		}
+		gate.mu.Lock()
+		gate.done = true
+		gate.cond.Broadcast()
+		gate.mu.Unlock()
 	}
 	tp.SetWorkerCount(p.Workers, false)
 	lastCount := p.Workers
@@ -462,6 +510,12 @@ func c09Run(pi interface{}) {
 
 	allDone := func(when string) {
 		for id := 0; id < st.nextID; id++ {
+			if st.cleared[id] {
+				if st.runs[id] != 0 {
+					simrt.Fail("oracle:task-ran-twice", "cleared-task-ran", "task %d was removed from the queue by Clear() and ran nevertheless", id)
+				}
+				continue
+			}
 			if st.runs[id] != 1 || !st.done[id] {
 				state := "never started"
 				if st.runs[id] == 1 {
